@@ -131,9 +131,7 @@ contract(
             index="i", seq="K",
             invariants={
                 "len": "len(src) == len(result)",
-                "src-range": "all(0 <= src[n] and src[n] < i for n in range(len(src)))",
-                "src-kept": "all(" + _KEPT.format(k="K[src[n]]") + " for n in range(len(src)))",
-                "src-val": "all(result[n] == " + _RES.format(k="K[src[n]]") + " for n in range(len(src)))",
+                "src": "all(0 <= src[n] and src[n] < i and " + _KEPT.format(k="K[src[n]]") + " and result[n] == " + _RES.format(k="K[src[n]]") + " for n in range(len(src)))",
                 "cover": "all(implies(" + _KEPT.format(k="K[a]") + ", a in pos and 0 <= pos[a] and pos[a] < len(src) and src[pos[a]] == a) for a in range(i))",
                 # each item is emitted at most once, in kerning order
                 "once": "all(implies(a < b, src[a] < src[b]) for a in range(len(src)) for b in range(len(src)))" if False else "all(src[n] < src[n + 1] for n in range(len(src) - 1))",
